@@ -214,6 +214,13 @@ theorem tri_call {α} {m : PM α} {s : PState} {Q₀ Q : α → PState → Prop}
   | error e => rw [hr] at h; exact h
   | ok r => obtain ⟨a, s1⟩ := r; rw [hr] at h; exact hq a s1 h
 
+/-- What a triple says about a failing run. -/
+theorem tri_error {α} {m : PM α} {s : PState} {Q : α → PState → Prop} (h : tri El m s Q) {f : PFail}
+    (hr : m.run s = .error f) : El f := by
+  unfold tri at h
+  rw [hr] at h
+  exact h
+
 theorem tri_get (s : PState) (Q : PState → PState → Prop) : tri El get s Q ↔ Q s s := by
   simp [tri, StateT.run, get, getThe, MonadStateOf.get, StateT.get, pure, Except.pure]
 
@@ -315,6 +322,10 @@ theorem tri_bumpCmdId (s : PState) (Q : PUnit → PState → Prop) :
   rw [tri_modify]; rfl
 
 end
+
+/- From here on `tri` is only used through the lemmas above (otherwise `assumption` / `apply` may try to
+evaluate a parser function on a symbolic state while unifying). -/
+attribute [irreducible] tri
 
 /-! ### tactics -/
 
